@@ -14,6 +14,7 @@ import (
 	"os"
 	"os/exec"
 	"path/filepath"
+	"runtime/pprof"
 	"strings"
 	"sync"
 	"time"
@@ -98,7 +99,7 @@ func expectAfterCmd(view [][2]int, ev string, oc []string) [][2]int {
 	return out
 }
 
-func runCase(w *c0203.World, idx int, in Input) []StepObs {
+func runCase(w *c0203.World, idx int, in Input) (obsOut []StepObs, wedged bool) {
 	name := fmt.Sprintf("w%d", idx)
 	var calls []c0203.Call
 	for i := 0; i < in.NCalls; i++ {
@@ -122,8 +123,27 @@ func runCase(w *c0203.World, idx int, in Input) []StepObs {
 		first.ErrText = cr.Err.Error()
 	}
 	alive := cr.Err == nil && !cr.Hang && env.E != nil
+	// The core can lose the verdict of resourceOffers (non-blocking send to acquireTasks, which may
+	// not be listening yet): acquireTasks then blocks for ever holding the deploy mutex, this
+	// DEPLOY times out with nothing launched and every later creation blocks in RefreshClasses.
+	// That is a scheduling accident outside the model (reported separately); the worker process is
+	// replaced and the case repeated.  Signature: no state event at all, or tasks to launch on
+	// offered hosts and not a single ACCEPT.
+	launchable := len(in.Tasks) > 0
+	for _, l := range in.Launch {
+		if l == "nooffer" {
+			launchable = false
+		}
+	}
+	if (cr.Hang && len(first.Reported) == 0) || (!alive && launchable && env.Accepts() == 0) {
+		dumpStacks(fmt.Sprintf("case %d: deployment verdict lost / core wedged", idx))
+		return nil, true
+	}
 	if cr.Hang {
 		first.State = c0203.EnvStateCode[env.State()]
+	}
+	if cr.Hang && len(in.Tasks) > 0 {
+		dumpStacks(fmt.Sprintf("case %d: creation did not return", idx))
 	}
 	view := make([][2]int, len(in.Tasks))
 	if alive {
@@ -143,7 +163,7 @@ func runCase(w *c0203.World, idx int, in Input) []StepObs {
 	}
 	if !alive {
 		env.Finish(false)
-		return obs
+		return obs, false
 	}
 	for _, op := range in.Ops {
 		var so StepObs
@@ -201,7 +221,19 @@ func runCase(w *c0203.World, idx int, in Input) []StepObs {
 	}
 	last := obs[len(obs)-1]
 	env.Finish(!last.Hang)
-	return obs
+	return obs, false
+}
+
+var dumped bool
+
+// dumpStacks writes all goroutine stacks to the worker log, once (diagnosis of unexpected hangs).
+func dumpStacks(why string) {
+	if dumped {
+		return
+	}
+	dumped = true
+	fmt.Fprintf(os.Stderr, "\n==== %s: goroutine dump ====\n", why)
+	_ = pprof.Lookup("goroutine").WriteTo(os.Stderr, 2)
 }
 
 var srcOf = map[string]int{"CONFIGURE": 2, "START": 3, "STOP": 4, "RESET": 3}
@@ -594,13 +626,22 @@ func childMain(inFile, outFile string, wid int) {
 	}
 	enc := json.NewEncoder(f)
 	for _, j := range jobs {
-		obs := runCase(w, j.Idx, j.In)
+		obs, wedged := runCase(w, j.Idx, j.In)
+		if wedged && os.Getenv("H02_LAST_TRY") == "" {
+			f.Close()
+			os.Exit(3) // the parent starts a fresh worker for this and the remaining cases
+		}
+		if obs == nil {
+			obs = []StepObs{}
+		}
 		_ = enc.Encode(result{Idx: j.Idx, Obs: obs}) // one line per case: a crash loses only the rest
 		f.Sync()
 	}
 	f.Close()
 	os.Exit(0)
 }
+
+var respawns int
 
 func runWorkers(o gen.Opts, jobs []job, workers int) map[int][]StepObs {
 	if workers > len(jobs) {
@@ -622,30 +663,50 @@ func runWorkers(o gen.Opts, jobs []job, workers int) map[int][]StepObs {
 		wg.Add(1)
 		go func() {
 			defer wg.Done()
-			inF := filepath.Join(o.Out, fmt.Sprintf("w%d_in.json", wi))
-			outF := filepath.Join(o.Out, fmt.Sprintf("w%d_out.json", wi))
-			b, _ := json.Marshal(parts[wi])
-			_ = os.WriteFile(inF, b, 0o644)
-			os.Remove(outF)
-			cmd := exec.Command(os.Args[0], "-child", inF, "-childout", outF, "-wid", fmt.Sprint(wi), "-out", o.Out)
-			cmd.Env = os.Environ()
-			logf, _ := os.Create(filepath.Join(o.Out, fmt.Sprintf("w%d.log", wi)))
-			cmd.Stdout, cmd.Stderr = logf, logf
-			_ = cmd.Run()
-			if logf != nil {
-				logf.Close()
-			}
-			raw, _ := os.ReadFile(outF)
-			for _, line := range strings.Split(string(raw), "\n") {
-				if strings.TrimSpace(line) == "" {
-					continue
+			todo := parts[wi]
+			for attempt := 0; attempt < 6 && len(todo) > 0; attempt++ {
+				inF := filepath.Join(o.Out, fmt.Sprintf("w%d_%d_in.json", wi, attempt))
+				outF := filepath.Join(o.Out, fmt.Sprintf("w%d_%d_out.json", wi, attempt))
+				b, _ := json.Marshal(todo)
+				_ = os.WriteFile(inF, b, 0o644)
+				os.Remove(outF)
+				cmd := exec.Command(os.Args[0], "-child", inF, "-childout", outF, "-wid", fmt.Sprint(wi), "-out", o.Out)
+				cmd.Env = os.Environ()
+				if attempt == 5 {
+					cmd.Env = append(cmd.Env, "H02_LAST_TRY=1")
 				}
-				var r result
-				if json.Unmarshal([]byte(line), &r) == nil {
+				logf, _ := os.Create(filepath.Join(o.Out, fmt.Sprintf("w%d_%d.log", wi, attempt)))
+				cmd.Stdout, cmd.Stderr = logf, logf
+				_ = cmd.Run()
+				if logf != nil {
+					logf.Close()
+				}
+				raw, _ := os.ReadFile(outF)
+				got := map[int]bool{}
+				for _, line := range strings.Split(string(raw), "\n") {
+					if strings.TrimSpace(line) == "" {
+						continue
+					}
+					var r result
+					if json.Unmarshal([]byte(line), &r) == nil {
+						mu.Lock()
+						res[r.Idx] = r.Obs
+						mu.Unlock()
+						got[r.Idx] = true
+					}
+				}
+				var rest []job
+				for _, j := range todo {
+					if !got[j.Idx] {
+						rest = append(rest, j)
+					}
+				}
+				if len(rest) > 0 {
 					mu.Lock()
-					res[r.Idx] = r.Obs
+					respawns++
 					mu.Unlock()
 				}
+				todo = rest
 			}
 		}()
 	}
@@ -710,9 +771,9 @@ func main() {
 	}
 	workers := *workersFlag
 	if workers == 0 {
-		workers = 8
+		workers = 16
 		if thorough {
-			workers = 16
+			workers = 24
 		}
 	}
 	t0 := time.Now()
@@ -727,7 +788,7 @@ func main() {
 		}
 		cases = append(cases, gen.Case{Term: caseTerm(j.In, obs), Kind: j.Kind, Input: j.In, Obs: obs})
 	}
-	extra := map[string]any{"workers": workers, "cases_lost_to_worker_crash": lost, "run_s": time.Since(t0).Seconds()}
+	extra := map[string]any{"workers": workers, "cases_lost_to_worker_crash": lost, "worker_respawns_after_lost_deploy_verdict_or_crash": respawns, "run_s": time.Since(t0).Seconds()}
 	if err := gen.WriteCases(o, "C02", "From Verif Require Import Common RoleTree TaskCmd.", "c02_case", "report02", cases, extra); err != nil {
 		fmt.Fprintln(os.Stderr, err)
 		os.Exit(2)
